@@ -198,16 +198,43 @@ func goEnv() []string {
 	return env
 }
 
-func buildWorker(root, scratch string, extra ...string) (string, error) {
-	// keep go.sum in step with /repo
-	if data, err := os.ReadFile("/repo/go.sum"); err == nil {
+// repoRoot is the tree under verification: /repo, unless VERIF_REPO names another checkout
+// (used to try candidate changes in a scratch worktree without touching /repo; the registered
+// commands never set it).
+func repoRoot() string {
+	if r := os.Getenv("VERIF_REPO"); r != "" {
+		return r
+	}
+	return "/repo"
+}
+
+// modArgs returns the -modfile arguments needed to build against repoRoot().
+func modArgs(root, scratch string) []string {
+	if data, err := os.ReadFile(filepath.Join(repoRoot(), "go.sum")); err == nil {
 		old, _ := os.ReadFile(filepath.Join(root, "go.sum"))
-		if string(old) != string(data) {
+		if string(old) != string(data) && repoRoot() == "/repo" {
 			os.WriteFile(filepath.Join(root, "go.sum"), data, 0o644)
 		}
 	}
+	if repoRoot() == "/repo" {
+		return nil
+	}
+	mod, err := os.ReadFile(filepath.Join(root, "go.mod"))
+	if err != nil {
+		return nil
+	}
+	alt := strings.Replace(string(mod), "=> /repo", "=> "+repoRoot(), 1)
+	os.WriteFile(filepath.Join(scratch, "alt.mod"), []byte(alt), 0o644)
+	if sum, err := os.ReadFile(filepath.Join(repoRoot(), "go.sum")); err == nil {
+		os.WriteFile(filepath.Join(scratch, "alt.sum"), sum, 0o644)
+	}
+	return []string{"-modfile=" + filepath.Join(scratch, "alt.mod")}
+}
+
+func buildWorker(root, scratch string, extra ...string) (string, error) {
 	bin := filepath.Join(scratch, "znworker")
 	args := []string{"build", "-tags", "verif"}
+	args = append(args, modArgs(root, scratch)...)
 	args = append(args, extra...)
 	args = append(args, "-o", bin, "./worker")
 	cmd := exec.Command("go", args...)
